@@ -9,7 +9,7 @@ HOWS = ['inner', 'left', 'right', 'full', 'leftsemi', 'leftanti', 'cross']
 class C13(Prop):
     id = 'C13'
     extracted = True      # merge_schemas / get_on_fields regenerated from the current source (Extracted/EquivC13.lean)
-    quick_cases = 2500
+    quick_cases = 5000
     thorough_cases = 40000
     quick_budget_s = 50
     rule = ('pairs of small tables (0..5 rows) with 1..2 shared key columns (non-null int / string keys, duplicate and missing '
